@@ -509,7 +509,7 @@ pub fn property(_tier: Tier) -> Property {
         parts: vec![Box::new(RandomPart {
             name: "listings",
             rule: "proptest: listing of 0-30 entries; songs carry any subset of duration/Time/Range/Pos+Id/Prio/Format/Last-Modified and 0-9 tag lines (named tags, tags unknown to the crate, repeated tags) in shuffled order; database listings (ListAllIn) interleave directory/playlist entries with their own Last-Modified at any position; decoded by Queue, Queue::range, Queue::song(id), CurrentSong (0-1 song), Find, GetPlaylist, ListAllIn and compared field by field (durations at < 1 us tolerance). Two further dimensions per case: the connection's history (fresh in half of the cases; otherwise 1-1500 distinct field names received earlier, the listing's own field names received earlier, or an earlier line of 70 KiB-4 MiB, all on the same connection) and the parameters of the decoding command object (Find windows shorter/longer than the listing and sort keys, Queue ranges, song by id/position, playlist and directory names). non-trivial = >=2 songs, an interleaved directory/playlist entry, a repeated tag, or both Time and duration; the check script runs this with and without the chrono feature; distinct by serialised case",
-            cases: (60_000, 5_000_000),
+            cases: (60_000, 2_000_000),
             strategy: Box::new(|t| on_used_connection(strategy(t))),
             check: Box::new(check_used),
         })],
